@@ -527,6 +527,11 @@ func (e *Env) evalIndex(x *Expr) Val {
 	switch {
 	case strings.HasPrefix(base.s, "Slice_"):
 		et := vc.S.elemOf[base.s]
+		if base.gt != nil {
+			if sl, ok := base.gt.Underlying().(*types.Slice); ok {
+				et = sl.Elem() // the sort only determines the element sort; the Go type comes from the value
+			}
+		}
 		return Val{sx("select", sx("el_"+base.s, base.t), idx.t), vc.sortOf(et), et}
 	case strings.HasPrefix(base.s, "(Array "):
 		// spec-level array (set or sequence)
@@ -684,6 +689,39 @@ func (e *Env) evalCall(x *Expr) Val {
 		}
 		e.fail("visited() outside map range loop")
 		return Val{"false", SBool, nil}
+	}
+	// contract-level predicate (macro)
+	if pr, ok := vc.P.contracts.Preds[x.Name]; ok && pr.Body != nil {
+		if len(x.Args) != len(pr.Params) {
+			e.fail("pred %s expects %d arguments", x.Name, len(pr.Params))
+			return Val{"true", SBool, nil}
+		}
+		ne := *e
+		ne.names = map[string]EV{}
+		ne.locals = nil
+		ne.li = nil
+		if pk := vc.P.pkgByName[pr.Pkg]; pk != nil {
+			ne.pkg = pk
+		}
+		for i, a := range x.Args {
+			v := e.eval(a)
+			// declared parameter types give untyped arguments (e.g. nil, spec values) a Go type
+			if v.gt == nil {
+				if gt := ne.lookupType(pr.Params[i].Type); gt != nil {
+					v.gt = gt
+				}
+			}
+			ne.names[pr.Params[i].Name] = v
+		}
+		// quantifier-bound variables of the caller stay visible
+		for k, v := range e.names {
+			if sv, ok := v.(Val); ok && sv.t == k {
+				if _, shadow := ne.names[k]; !shadow {
+					ne.names[k] = v
+				}
+			}
+		}
+		return ne.eval(pr.Body)
 	}
 	// spec function from the prelude
 	if sf, ok := vc.P.specFuncs[x.Name]; ok {
